@@ -1,11 +1,35 @@
 /-
 C28 deepening, step 2: whole entries.  The 16 header bytes of a complex entry compose with its map
-items; one statement for the three entry kinds of Spec.Arsc; the random-access reader on a file that
-holds the encoded entry.  Core Lean only.
+items; one statement for the three entry kinds of Spec.Arsc.  Core Lean only.
+
+Proof hygiene: `simp`/`unfold` must never see `le32 (enc32 x ++ …)` feeding a structural recursion on
+the decoded number (`whnf` would evaluate `d * 16777216` in unary).  The decoders are therefore
+unfolded only against abstract hypotheses (`…_of` lemmas), and `enc16/enc32` are locally irreducible.
 -/
 import AgVerif.Proof.ArscRead
 namespace AgVerif.Arsc
 open AgVerif.Gen.ArscConsts AgVerif.Spec.Arsc
+
+attribute [local irreducible] enc16 enc32
+
+theorem decodeComplexL_of {flags index parent count : Nat} {l r3 r4 r' : List Nat}
+    {its : List (Nat × ResValue)}
+    (h1 : le32 l = some (parent, r3)) (h2 : le32 r3 = some (count, r4))
+    (h3 : mapItemsL count r4 = some (its, r')) :
+    decodeComplexL flags index l = some (⟨flags, index, .complex parent its⟩, r') := by
+  simp only [decodeComplexL, h1, h2, h3]
+
+theorem decodeEntryL_of {size flags index : Nat} {l r0 r1 r2 : List Nat}
+    (h0 : le16 l = some (size, r0)) (h1 : le16 r0 = some (flags, r1))
+    (h2 : le32 r1 = some (index, r2)) :
+    decodeEntryL l = decodeBodyL size flags index r2 := by
+  simp only [decodeEntryL, h0, h1, h2]
+
+theorem decodeEntryL_hdr (size flags index : Nat) (r : List Nat)
+    (hs : size < 65536) (hf : flags < 65536) (hk : index < 4294967296) :
+    decodeEntryL (enc16 size ++ enc16 flags ++ enc32 index ++ r) = decodeBodyL size flags index r := by
+  rw [List.append_assoc, List.append_assoc]
+  exact decodeEntryL_of (le16_enc _ _ hs) (le16_enc _ _ hf) (le32_enc _ _ hk)
 
 theorem decodeEntryL_complex (flags key parent : Nat) (items : List (Nat × (Nat × Nat))) (rest : List Nat)
     (hf : flags < 65536) (hc : flags &&& flagComplex ≠ 0)
@@ -13,12 +37,12 @@ theorem decodeEntryL_complex (flags key parent : Nat) (items : List (Nat × (Nat
     (hi : ∀ it ∈ items, it.1 < 4294967296 ∧ it.2.1 < 256 ∧ it.2.2 < 4294967296) :
     decodeEntryL (encComplex flags key parent items ++ rest)
       = some (⟨flags, key, .complex parent items⟩, rest) := by
-  simp only [decodeEntryL, encComplex, List.append_assoc]
-  rw [le16_enc 16 _ (by omega)]; simp only []
-  rw [le16_enc _ _ hf]; simp only []
-  rw [le32_enc _ _ hkey]; simp only [decodeBodyL, hc, ne_eq, not_false_eq_true, if_true, decodeComplexL]
-  rw [le32_enc _ _ hp]; simp only []
-  rw [le32_enc _ _ hn]; simp only []
-  rw [mapItemsL_enc items rest hi]
+  have e : encComplex flags key parent items ++ rest
+      = enc16 16 ++ enc16 flags ++ enc32 key ++ (enc32 parent ++ (enc32 items.length ++ (encMap items ++ rest))) := by
+    simp only [encComplex, List.append_assoc]
+  rw [e, decodeEntryL_hdr 16 flags key _ (by omega) hf hkey]
+  unfold decodeBodyL
+  rw [if_pos hc]
+  exact decodeComplexL_of (le32_enc _ _ hp) (le32_enc _ _ hn) (mapItemsL_enc items rest hi)
 
 end AgVerif.Arsc
